@@ -92,6 +92,28 @@ def check(run, prog, tier):
         got = {fi.qual for fi, recv, e in cx.scan.callers_of(q)}
         run.ob("H1", f"{q}:called-only-by-its-cause", got <= callers and bool(got), loc(prog.func(q)),
                f"called by {sorted(got)}" + ("" if got <= callers else f"; expected only {sorted(callers)}"))
+    # a StopSubscribe ends the subscription it names and nothing else ("until ... a StopSubscribe for it arrives ... and at
+    # no other time"): the only store operation of eventgroup_subscribe_stopped is stop(<sender>, <that subscription>)
+    ess = prog.lookup_method(INST, "eventgroup_subscribe_stopped")
+    if ess is None:
+        raise AnalysisError(f"{INST}.eventgroup_subscribe_stopped vanished")
+    a_p, s_p = P(ess, param_at(ess, 0, "addr")), P(ess, param_at(ess, 1, "subscription"))
+    stop_q = cx.m(TS, "stop").qual
+    foreign = None
+    n_stop = 0
+    for p in engine(prog, NoInline()).paths(ess, recv=INST):
+        run.paths += 1
+        for e in p.events:
+            if e.kind == "call" and e.targets and e.targets[0].cls is not None and e.targets[0].cls.qual == TS \
+                    and e.recv == ("attr", ("self", INST), "subscriptions"):
+                if e.targets[0].qual == stop_q and tuple(e.args[:2]) == (a_p, s_p):
+                    n_stop += 1
+                else:
+                    foreign = foreign or e
+    run.ob("H1", f"{ess.qual}:ends-only-the-named-subscription", foreign is None and n_stop > 0, loc(ess, foreign.node if foreign is not None else None),
+           "the only store operation is subscriptions.stop(sender, the subscription built from the entry)" if foreign is None else
+           f"also calls subscriptions.{foreign.targets[0].name}({', '.join(show(a)[:30] for a in foreign.args)}): a StopSubscribe for one subscription "
+           "ends another (e.g. one that differs in its endpoint options and is still held)")
     # StopSubscribe branch: only for TTL 0
     e0 = engine(prog, NoInline())
     ent = P(hs, param_at(hs, 0, "entry"))
